@@ -27,7 +27,7 @@ type c20Tok struct {
 	v float64
 }
 
-var c20Forms = []c20Tok{{"1", 1}, {"-2", -2}, {"+3", 3}, {".5", .5}, {"-.25", -.25}, {"10.5", 10.5}, {"0", 0}, {"007", 7}}
+var c20Forms = []c20Tok{{"1", 1}, {"-2", -2}, {"+3", 3}, {".5", .5}, {"-.25", -.25}, {"10.5", 10.5}, {"0", 0}, {"007", 7}, {"+12.5", 12.5}, {"-0.75", -0.75}, {"+.5", .5}}
 
 // command of the structured description
 type c20Cmd struct {
@@ -375,7 +375,7 @@ func init() {
 		ID:    "C20",
 		Level: "exploration",
 		Rule: "engine B over the two dialect grammars of the statement. Structure: every command sequence M|m (1 or 2 operand groups) + <=3 (thorough <=4) further commands over the dialect's verbs with 1 or 2 operand groups (implicit repetition), sub-path joins zM/zm, terminator z (generator) / optional z (converter), x 5 transforms / 4 (size,offset,outSize) triples x ADJ {0,3}. " +
-			"Lexis: for every verb, every number form {1,-2,+3,.5,-.25,10.5,0,007} in every operand position x every separator {space, comma, two spaces, nothing where the next sign or dot delimits}. Concat/MulAff3: all ordered triples of 8 matrices against float64 composition. Converter level: SVG files with <=3 paths x opacity attributes {absent,1,.5,.25} in both attribute spellings x 0..2 circles through ParseFile. " +
+			"Lexis: for every verb, every number form {1,-2,+3,.5,-.25,10.5,0,007,+12.5,-0.75,+.5} in every operand position x every separator {space, comma, two spaces, nothing where the next sign or dot delimits}. Concat/MulAff3: all ordered triples of 8 matrices against float64 composition. Converter level: SVG files with <=3 paths x opacity attributes {absent,1,.5,.25} in both attribute spellings x 0..2 circles through ParseFile. " +
 			"Expected calls are built from the structured description (not by parsing): first move => StartPath(adj), later moves => close-and-move, one ClosePathEndPath; absolute operands full transform, relative scale only, H/V matching axis, radii scale, flags unchanged, rotation/360; within 3 float32 ulp at the magnitude of the largest term (converter 4). " +
 			"distinct = hash of the emitted call kinds; non-trivial = string with an implicit repetition, a sub-path join or a non-space separator",
 		Assumptions: []string{"strings outside the two dialects (exponents, whitespace after a verb, commas in the converter, z not followed by a move or the end) are not generated"},
